@@ -17,3 +17,7 @@ Proof. reflexivity. Qed.
 (** every seeding call is guarded by "is not None" *)
 Lemma link_all_guarded : forallb site_guarded_by_not_none Gen.Seeding.seed_sites = true.
 Proof. reflexivity. Qed.
+(** the checkpoint of a seeded sampler records the generator state, load restores it, and the seed itself is used on load only for
+    checkpoints without one *)
+Lemma link_resume_continues_the_stream : Gen.Seeding.seeded_checkpoint_records_the_stream_and_load_restores_it = true.
+Proof. reflexivity. Qed.
